@@ -121,10 +121,12 @@ pub struct C16;
 
 fn bedgraph_inputs() -> Vec<(String, String)> {
     // (text, chrom sizes)
+    // chrUn carries values spelled with more digits than a double holds, a hair off the midpoint
+    // between two neighbouring singles (text -> f64 -> f32 rounds them to the wrong neighbour);
     // chr10 is longer than the first chromosome and has a value beyond the first one's length;
     // chrX_KI270442v1 has upper-case letters in its name (restricted queries name it)
     let sizes = "chr1\t1000\nchr10\t2000\nchr2\t500\nchrUn\t77\nchrX_KI270442v1\t300\n".to_string();
-    let t1 = "chr1\t0\t5\t1.5\nchr1\t5\t6\t-2.25\nchr1\t10\t20\t0.06792\nchr1\t20\t21\t3\nchr1\t999\t1000\t14254\nchr10\t7\t1500\t0.5\nchr10\t1600\t1700\t4\nchr2\t1\t2\t1\nchr2\t2\t3\t1\nchr2\t400\t500\t-0.001\nchrX_KI270442v1\t0\t3\t7\nchrX_KI270442v1\t250\t300\t8\n".to_string();
+    let t1 = "chr1\t0\t5\t1.5\nchr1\t5\t6\t-2.25\nchr1\t10\t20\t0.06792\nchr1\t20\t21\t3\nchr1\t999\t1000\t14254\nchr10\t7\t1500\t0.5\nchr10\t1600\t1700\t4\nchr2\t1\t2\t1\nchr2\t2\t3\t1\nchr2\t400\t500\t-0.001\nchrUn\t0\t1\t16777217.0000000000000001\nchrUn\t1\t2\t1.00000005960464477539062500000001\nchrUn\t2\t3\t37.500001907348633\nchrUn\t3\t4\t1.0000000596046448\nchrUn\t4\t5\t8.5070596e37\nchrX_KI270442v1\t0\t3\t7\nchrX_KI270442v1\t250\t300\t8\n".to_string();
     let t2 = t1.trim_end().to_string();
     let mut t3 = String::new();
     for i in 0..30 {
@@ -581,7 +583,7 @@ fn merge_inputs() -> Vec<Vec<(String, Vec<(u32, u32, f32)>)>> {
 
 pub fn merge_tool_cases(quick: bool) -> Vec<MergeTool> {
     let mut v = vec![];
-    let outs: Vec<(&str, Option<&str>)> = vec![("out.bw", None), ("out.bigWig", None), ("out.bedGraph", None), ("out.dat", Some("bigwig")), ("out.dat", Some("BedGraph")), ("OUT.BW", None)];
+    let outs: Vec<(&str, Option<&str>)> = vec![("out.bw", None), ("out.bigWig", None), ("out.bedGraph", None), ("out.dat", Some("bigwig")), ("out.dat", Some("BedGraph")), ("OUT.BW", None), ("out.bw", Some("bedgraph")), ("out.bedGraph", Some("bigwig"))];
     let mut n = 0;
     for inputs in [vec![0usize], vec![0, 1], vec![0, 1, 2], vec![1, 2]] {
         for clip in [None, Some(1.5f32)] {
@@ -593,7 +595,7 @@ pub fn merge_tool_cases(quick: bool) -> Vec<MergeTool> {
                             continue;
                         }
                         // kent style calls (styles 2, 3) have no flags with separate values
-                        let style = (v.len() % 4) as u8;
+                        let style = ((v.len() + v.len() / 8) % 4) as u8;
                         let (ucsc, input_style) = if style >= 2 && ot.is_none() { (true, style) } else { (n % 2 == 0, style % 2) };
                         v.push(MergeTool { inputs: inputs.clone(), clip, adjust, threshold, output: s(o), output_type: ot.map(s), ucsc, input_style, many: 0 });
                     }
@@ -679,7 +681,10 @@ pub fn c15_tool(t: &MergeTool, out: &mut Outcome) {
     argv.push(t.output.clone());
     // every other run writes over an existing, longer file of the same name
     if (t.inputs.len() + t.input_style as usize + t.output.len()) % 2 == 0 {
-        let bedgraph_out = t.output.to_lowercase().ends_with("bedgraph") || t.output_type.as_deref() == Some("bedgraph");
+        let bedgraph_out = match &t.output_type {
+            Some(ot) => ot.to_lowercase() == "bedgraph",
+            None => t.output.to_lowercase().ends_with("bedgraph"),
+        };
         if bedgraph_out {
             std::fs::write(dir.join(&t.output), "chrStale\t0\t1\t9\n".repeat(20000)).unwrap();
         } else {
@@ -997,6 +1002,33 @@ pub fn c17_tool(t: &AvgTool, out: &mut Outcome) {
             }
         }
     }
+    // values over bed on a file that stores NaN, infinities and -0.0 (legal values: a stored NaN is
+    // not a missing base), once per check run
+    if t.file == 1 && t.regions == 0 && t.namecol.is_none() && !t.min_max {
+        let items: Vec<(u32, u32, f32)> = vec![(0, 2, 1.5), (2, 4, f32::NAN), (4, 5, f32::INFINITY), (5, 6, f32::NEG_INFINITY), (8, 10, -0.0), (10, 11, f32::NAN), (12, 14, 2.0)];
+        let mut spec2 = spec.clone();
+        spec2.chroms = vec![EncChrom { name: s("chrN"), size: 200, wig: vec![WigSec::T1(items.clone())], bed: vec![] }];
+        std::fs::write(dir.join("nan.bw"), encode(&spec2).bytes).unwrap();
+        let regs2: Vec<(u32, u32)> = vec![(0, 16), (1, 3), (3, 4), (6, 8), (9, 12), (0, 1), (4, 6)];
+        let bed2: String = regs2.iter().map(|(a, b)| format!("chrN\t{}\t{}\n", a, b)).collect();
+        std::fs::write(dir.join("nan.bed"), bed2).unwrap();
+        let argv = vec![s("bigwigvaluesoverbed"), s("nan.bw"), s("nan.bed"), s("nanvals.txt")];
+        let r = run_in(dir, &argv);
+        out.count("tool_values_runs_on_nonfinite_values", 1);
+        if r.timed_out || r.code != Some(0) {
+            out.fail("values_tool_failed", &tags, format!("{:?}: exit {:?} stderr {}", argv, r.code, r.stderr.chars().take(300).collect::<String>()));
+        } else {
+            let text = std::fs::read_to_string(dir.join("nanvals.txt")).unwrap_or_default();
+            let rows: Vec<&str> = text.lines().collect();
+            for (i, (a, b)) in regs2.iter().enumerate() {
+                let want: Vec<String> = (*a..*b).map(|p| items.iter().find(|i| i.0 <= p && p < i.1).map(|i| i.2).unwrap_or(0.0).to_string()).collect();
+                if rows.get(i).map(|r| *r != want.join("\t")).unwrap_or(true) {
+                    out.fail("values_tool_rows_wrong", &tags, format!("chrN [{},{}): got {:?}, expected {:?}", a, b, rows.get(i), want.join("\t")));
+                    break;
+                }
+            }
+        }
+    }
     // values over bed
     let argv = vec![s("bigwigvaluesoverbed"), s("in.bw"), s("regions.bed"), s("vals.txt")];
     let r = run_in(dir, &argv);
@@ -1046,7 +1078,19 @@ pub fn c19_tool_from(extra: usize, supplied: Option<(String, usize)>, threads: u
 pub fn c19_tool_wide(extra: usize, width: usize, supplied: Option<(String, usize)>, threads: usize, stdin: Option<&str>, out: &mut Outcome) {
     let wd = workdir();
     let dir = wd.path();
-    let rest: Vec<String> = (0..extra).map(|i| format!("v{}{}", i, "w".repeat(width.saturating_sub(3)))).collect();
+    // columns are separated by TAB only: for some column counts one value has blanks inside and one
+    // column is empty (the number of columns, hence of declared fields, is unchanged)
+    let rest: Vec<String> = (0..extra)
+        .map(|i| {
+            if extra % 7 == 3 && i == 0 {
+                "putative zinc finger".to_string()
+            } else if extra % 7 == 5 && i == 1 {
+                String::new()
+            } else {
+                format!("v{}{}", i, "w".repeat(width.saturating_sub(3)))
+            }
+        })
+        .collect();
     let mut bed = String::new();
     for (i, (c, a, b)) in [("chr1", 1u32, 9u32), ("chr1", 5, 20), ("chr2", 0, 4)].iter().enumerate() {
         bed.push_str(&format!("{}\t{}\t{}", c, a, b));
